@@ -58,12 +58,12 @@ theorem aInterp_ref (s : State) (o : Op) (h : isAdd o = true) :
     have hl : lookup refPolicies "route_code_prefix" = some [.raiseIfSlash, .setPrefix] := by decide
     by_cases hp : '/' ∈ p
     · simp [regStep, refAddRule, aInterp, policyName, hl, pInterp, hp, resOf]
-    · cases f <;> cases hr : s.inRun <;>
-        simp [regStep, refAddRule, aInterp, policyName, hl, pInterp, hp, resOf, flagOf, sinkOf, hr]
+    · cases f <;> cases hr : s.inRun <;> cases hc : s.sinks.contains k <;>
+        simp_all [regStep, refAddRule, aInterp, policyName, hl, pInterp, hp, resOf, flagOf, sinkOf, hr]
   | addId k t f =>
     have hl : lookup refPolicies "test_id" = some [.setId] := by decide
-    cases f <;> cases hr : s.inRun <;>
-      simp [regStep, refAddRule, aInterp, policyName, hl, pInterp, resOf, flagOf, sinkOf, hr]
+    cases f <;> cases hr : s.inRun <;> cases hc : s.sinks.contains k <;>
+      simp_all [regStep, refAddRule, aInterp, policyName, hl, pInterp, resOf, flagOf, sinkOf, hr]
   | addBad k f =>
     have hl : lookup refPolicies "no-such-policy" = none := by decide
     simp [regStep, refAddRule, aInterp, policyName, hl, resOf]
